@@ -51,6 +51,11 @@ CHECKS["C18"] = dict(
  note="<= 3 restarts and 4 steps exhaustive (quick replays a 1-in-k subsample of ~2500 behaviours; thorough all plus simulated 7-step behaviours with 4 restarts). A raising first call leaves an empty iterations.txt which read_iterations() parses as {} (modelled, not asserted against). Restart directories are immutable once written.",
  technique="TLA+ model of the growing simulation directory and catalogue files enumerated by TLC; behaviours replayed on generated directories with the real iterations/read_iterations/get_content and the files re-parsed",
  design_ref="DESIGN.md 4.3, 5/C18")
+CHECKS["C14"] = dict(
+ text="OverTime.tla describes the table produced by the time-series driver symbolically (a cell is In(column, step), Val(variable, step) = what a fresh AurelCore on that step's inputs returns, or Est(estimator, column, step)), the driver call as the code's phases (clean requests, compute, estimates on every scalar column lacking them, sort by temporal key) and the environment action Shuffle; TLC checks SplitInvariant (every admissible split of (V, E) over successive calls ends in the table of the single call), NoColumnLost, InputsPreserved, EstimatesOnlyOfScalars over all row orders, temporal keys, requests and splits. Behaviours are replayed on the real over_time with three distinct non-trivial time steps; every cell of the final table is compared with a fresh per-step computation / the estimator re-applied / the input bit-for-bit; plus runs with aggressive cache options while a heavy custom variable computes, and all 26 documented estimators against independent definitions.",
+ note="<= 2 driver steps exhaustive in the model (83k states), replay of ~1500 (quick) / all deduplicated (thorough) behaviours plus simulated 4-step behaviours. Admissible split: every estimate is passed in a call made when or after the last scalar column appears. 3 time steps, 7^3 grid.",
+ technique="TLA+ symbolic-table model of over_time checked with TLC (split invariance); behaviours replayed on the real driver against per-step fresh recomputation",
+ design_ref="DESIGN.md 4.4, 5/C14")
 
 NA = {
  "C17": "Closed-form transcendental solutions (sin, sinh, 2F1, t^(2/3)): no state, history or case analysis for a TLA+ specification to enumerate, and TLC has neither reals nor transcendental functions; a CAS/interval technique would be a different family (DESIGN.md section 6).",
